@@ -11,6 +11,7 @@ Line-protocol driver for the C02 interleaving model (Model/VersionSet.lean).
                          (`at=blocked`: its next step needs the version-set mutex / compacting flag);
                          +j<k>: jobs that were blocked and were released by this step, run next
   spawn flush k:t k:t .. | spawn compact | spawn rollup f f .. | spawn delobs
+  par j<a> j<b> ..       the commits of these jobs run concurrently (released together, unscheduled)
   cleanup f f ..         storeCache.Cleanup closed exactly these entries
 Every answer is `<result> | <state>`; unknown or ill-formed lines answer `bad-op`.
 The code variant (does removeVersion re-check the refcount?) is the regenerated fact
@@ -179,6 +180,17 @@ def step' (d : D) (ws : List String) : D × String :=
           answer d2 ("at=" ++ "+".intercalate rs)
         else (d, "bad-op")
     | _, _ => (d, "bad-op")
+  | "par" :: ts =>
+    -- commits released together: their critical sections are serialised by the version-set mutex;
+    -- the resulting state does not depend on the order (flushes / rollup-done commits only)
+    match ts.mapM (fun w => if w.startsWith "j" then (w.drop 1).toString.toNat? else none) with
+    | some js =>
+      if js.all (fun j => j < d.st.nJob) then
+        let toDone (s : St) (j : Nat) : St := (List.range 24).foldl (fun s _ => (runJob d.cfg s j 64).1) s
+        let s' := js.foldl toDone d.st
+        answer { d with st := s' } ("at=" ++ "+".intercalate (js.map (fun j => if (s'.job j).pc == .done then "done" else "blocked")))
+      else (d, "bad-op")
+    | none => (d, "bad-op")
   | "spawn" :: "flush" :: kvs =>
     match parsePayload kvs with
     | some p => if p.isEmpty then (d, "bad-op") else act d (.spawn .flush p) s!"job={d.st.nJob}"
